@@ -201,7 +201,7 @@ def check_case(case, ctx):
             ctx.unexpected('partial evaluators', e, case)
             return
         with monitor.suspended():
-            case = dict(case, edits_applied=netgen.random_edits(c, rng, allow_interface=False))
+            case = dict(case, edits_applied=netgen.random_edits(c, rng))
             CUR['case'] = case
             net = refsem.net_of(c)
         ctx.count('edited_circuits')
